@@ -16,7 +16,8 @@ ENGINE = "sim"
 TECHNIQUE = ("exhaustive enumeration of per-host pool states along small query plans plus Hypothesis-generated plans "
              "(permutations, sub-plans, explicit host) over the real Session/ResponseFuture/HostConnection on a deterministic "
              "simulated network; a reference walk of the plan predicts the hosts that receive a frame, the outcome and the "
-             "contents of NoHostAvailable.errors")
+             "contents of NoHostAvailable.errors; paged requests repeat the walk for every further page fetch (started through "
+             "the future, the ResultSet or plain iteration) with pool states that changed between the pages")
 RULE = ("A case is a plan over 1-4 fake nodes (a fixed load-balancing plan in any order, possibly a sub-plan, or an explicit "
         "host= target) and one state per plan host out of 8: pool missing from the session, pool shut down, every stream id "
         "taken (busy), connection closed by the server so that the send fails, healthy answering an error followed by "
@@ -27,12 +28,27 @@ RULE = ("A case is a plan over 1-4 fake nodes (a fixed load-balancing plan in an
         "executions over 2-4 healthy hosts) and answers a chosen in-flight host with a retryable server error + RETRY / "
         "RETRY_NEXT_HOST / RETHROW / IGNORE or with rows: RETRY must re-send to the host that answered, RETRY_NEXT_HOST to the "
         "next plan host not yet used, and NoHostAvailable.errors must blame the hosts that answered.  "
-        "Non-trivial: at least 2 plan hosts were visited and at least one was not healthy.  Distinct by case digest.")
+        "A third family makes the request paged: the first page is answered with a paging state (by construction: hosts "
+        "before the answering one are skipped or say next-host) and 1-3 further pages are fetched via "
+        "ResponseFuture.start_fetching_next_page, ResultSet.fetch_next_page or iteration past the page; before each fetch any "
+        "still usable plan host may change to any of the 8 states (unusable pools stay unusable).  Every page fetch is a "
+        "request of its own and must again walk the policy's plan from the start -- or try ONLY the explicit host= target, "
+        "failing with NoHostAvailable naming just the target when its pool is unusable by then; the policy's plan lists the "
+        "target last, so any routing by the policy shows as a frame on another host.  Same frame-order / outcome / "
+        "errors oracle per page (finding keys carry page=next); enumerated for a targeted 2-node request over all 8 "
+        "second-page target states x 3 ways of fetching.  "
+        "Non-trivial: on some page at least 2 plan hosts were visited and at least one was not healthy, or a further page of "
+        "a host-targeted request was fetched while the policy's plan offered at least one other host.  Distinct by case digest.")
 ASSUMPTIONS = ["network, clock, executor and event loop are simulated (sim/); Cluster, Session, pools, connections, "
                "ResponseFuture are the real classes",
                "pool states are installed directly (session._pools.pop, pool.shutdown(), held filler requests on a connection "
                "class with max_in_flight=3, server-side close of the pool's idle connection)",
                "the plan is a fixed list: membership changes caused by the failing sends do not alter it",
+               "between pages a pool the harness made unusable (missing / shut down / busy / failed send) stays unusable; for a "
+               "pool whose connection failed under an earlier page either ConnectionShutdown or ConnectionException is accepted "
+               "as the recorded reason (the session has shut the pool down or removed it by then)",
+               "the fake server answers every page with one row and a fresh paging state until the generated number of pages "
+               "is reached; the paging state echoed by the driver is not judged here",
                "nodes whose pool is missing / shut down / failing stay unreachable, so the session's pool maintenance "
                "(update_created_pools after a host is marked down) cannot renew them during the request"]
 
@@ -76,18 +92,31 @@ def interpret(case, ctx):
         ctx.label("inconclusive:step-budget")
 
 
+STICKY = ("missing", "shutdown", "busy", "failsend")   # pool states this harness cannot undo between pages
+VIAS = ["future", "resultset", "iterate"]
+
+
+def page_states(prev, drawn):
+    """states of the next page fetch: a pool that is already unusable stays so, every other position takes the
+    drawn state ("same" = unchanged)"""
+    return [q if (q in STICKY or d == "same") else d for q, d in zip(prev, drawn)]
+
+
 def _run(case, ctx, sim):
     from cassandra import ConsistencyLevel  # noqa: F401
     from cassandra.cluster import ExecutionProfile, NoHostAvailable
     from cassandra.query import SimpleStatement
     net = sim.net
     plan = case["plan"]                 # node indexes in plan order
-    states = case["states"]             # state per plan position
+    states = list(case["states"])       # state per plan position (first page)
+    pages = case.get("pages", [])       # later page fetches: {"states": [...], "via": ...}
     m = case["nodes"]
     kinds = [KINDS[(i + case.get("kind_shift", 0)) % len(KINDS)] for i in range(len(plan))]
     by_host = case["mode"] == "host"
-    eff_states = states[:1] if by_host else states
-    frames_m, errors_m, decisions, outcome_m = model(eff_states, kinds)
+    all_states = [states]
+    for pg in pages:
+        all_states.append(page_states(all_states[-1], pg["states"]))
+    decisions = []                      # extended page by page; the scripted policy reads it when consulted
     rlog = []
     addrs = F.addrs(m)
     # with an explicit target the load-balancing plan must not matter: it lists the target last
@@ -99,7 +128,8 @@ def _run(case, ctx, sim):
     # warm > 0: few stream ids per connection (3) and `warm` earlier requests per host, so that the
     # request under test goes out on every possible stream id, id 0 included (with the default 300 ids
     # id 0 only comes round every 300th request)
-    cluster, session, nodes = F.build(sim, m, prof, max_in_flight=(cap + 1) if ("busy" in states or warm) else None,
+    any_busy = any("busy" in ss for ss in all_states)
+    cluster, session, nodes = F.build(sim, m, prof, max_in_flight=(cap + 1) if (any_busy or warm) else None,
                                       contact=plan[0])
     for _w in range(warm):
         for i in plan:
@@ -111,8 +141,9 @@ def _run(case, ctx, sim):
     if ctx._failures:
         return
     pos_of = dict((addrs[i], p) for p, i in enumerate(plan))
-    got = []            # plan position (or "off-plan:<addr>") of every user frame, in order
+    got = []            # plan position (or "off-plan:<addr>") of every user frame of the current page, in order
     count = {}
+    cur = {"page": 0, "states": states}
 
     def user(node, conn, req):
         if not F.is_user(req) or conn.is_control_connection:
@@ -121,23 +152,23 @@ def _run(case, ctx, sim):
         got.append(p if p is not None else "off-plan:%s" % node.address)
         k = count.get(node.address, 0)
         count[node.address] = k + 1
-        s = states[p] if p is not None else "ok"
+        s = cur["states"][p] if p is not None else "ok"
         if s in ("err_next", "err_rethrow") or (s == "err_retry" and k == 0):
             U.answer(node, conn, req, kinds[p])
         else:
-            U.answer(node, conn, req, "rows")
+            more = cur["page"] < len(pages)
+            U.answer(node, conn, req, "rows", paging_state=(b"ps%d" % (cur["page"] + 1)) if more else None)
         return ("drop",)
 
     for nd in nodes:
         nd.on_request = F.chain(F.hold_fillers, user)
 
-    # ---- install the pool states
-    for p, i in enumerate(plan):
-        s = states[p]
+    def install(p, s):
+        i = plan[p]
         host = F.host_of(cluster, addrs[i])
         pool = session._pools.get(host)
         if pool is None:
-            raise RuntimeError("no pool for %s after connect" % addrs[i])
+            raise RuntimeError("no pool for %s" % addrs[i])
         if s == "missing":
             session._pools.pop(host)
             sim.call(pool.shutdown)
@@ -152,11 +183,16 @@ def _run(case, ctx, sim):
             # send) Session.on_down ends in update_created_pools(), which would otherwise renew the pools
             # this case removed or shut down while a busy pool makes the request wait
             nodes[i].up = False
+
+    # ---- install the pool states
+    for p in range(len(plan)):
+        install(p, states[p])
     sim.settle()
 
     stmt = SimpleStatement(F.USER_Q)
     kw = {"host": F.host_of(cluster, addrs[plan[0]])} if by_host else {}
     fut = None
+    decisions.extend(model(states[:1] if by_host else states, kinds)[2])
     with ctx.driver(["C17.execute_async"]):
         fut = sim.call(session.execute_async, stmt, **kw)
     if fut is None:
@@ -164,62 +200,133 @@ def _run(case, ctx, sim):
     sim.settle()
     # a busy pool makes borrow_connection wait 2 virtual seconds (on the client thread or a retry task)
     sim.advance(2.0 * states.count("busy") + 0.5)
-    res = []
 
-    def get():
-        try:
-            res.append(("result", [tuple(r) for r in fut.result()]))
-        except Exception as e:  # noqa
-            res.append(("error", e))
-    if not F.done(fut):
-        ctx.fail(["C17.outcome", "incomplete"], "the future has no outcome; frames went to plan positions %r" % (got,))
-        return
-    sim.call(get)
-    kind, val = res[0]
+    nontrivial = False
+    fetched = 0
+    rs_box = [None]
+    outcome_m = None
+    for j in range(len(all_states)):
+        cur_states = all_states[j]
+        eff_states = cur_states[:1] if by_host else cur_states
+        pfeat = [] if j == 0 else ["page=next"]
+        if j > 0:
+            # ---- the next page of the same request: pool states may have changed in between
+            via = pages[j - 1]["via"]
+            if not fut.has_more_pages:
+                ctx.fail(["C17.page", "no-more-pages"], "page %d was answered with a paging state but has_more_pages is false" % j)
+                return
+            prev = all_states[j - 1]
+            for p in range(len(plan)):
+                if cur_states[p] != prev[p] and cur_states[p] in STICKY:
+                    install(p, cur_states[p])
+            sim.settle()
+            del got[:]
+            count.clear()
+            cur["page"], cur["states"] = j, cur_states
+            raised = []
+            rs = rs_box[0]
 
-    feat = "first-deviation=%s" % next((states[p] if isinstance(p, int) else "off-plan" for p, q in
-                                        itertools.zip_longest(got, frames_m) if p != q and p is not None), "missing-frame")
-    if got != frames_m:
-        ctx.fail(["C17.order", "mode=%s" % case["mode"], feat],
-                 "frames went to plan positions %r, expected %r (states %r, plan %r)" % (got, frames_m, eff_states, plan))
-    elif outcome_m[0] == "result":
-        if kind != "result" or val != [(1, "x")]:
-            ctx.fail(["C17.outcome", "expected=rows", "got=%s" % (kind if kind == "result" else F.exc_name(val))],
-                     "expected the rows of position %d, got %r (states %r)" % (frames_m[-1], val, eff_states))
-    elif outcome_m[0] == "error":
-        if kind != "error" or F.exc_name(val) != outcome_m[1]:
-            ctx.fail(["C17.outcome", "expected=%s" % outcome_m[1], "got=%s" % (kind if kind == "result" else F.exc_name(val))],
-                     "expected %s, got %r (states %r)" % (outcome_m[1], val, eff_states))
-    else:
-        if kind != "error" or not isinstance(val, NoHostAvailable):
-            ctx.fail(["C17.exhaustion", "not-reported", "got=%s" % (kind if kind == "result" else F.exc_name(val))],
-                     "the plan is exhausted (states %r) but the outcome is %r" % (eff_states, val))
+            def fetch():
+                try:
+                    if via == "future":
+                        fut.start_fetching_next_page()
+                    elif via == "resultset":
+                        rs.fetch_next_page()
+                    else:
+                        it = iter(rs)
+                        for _ in range(len(rs.current_rows) + 1):
+                            next(it)
+                except Exception as e:  # noqa
+                    raised.append(e)
+            sim.call(fetch)
+            sim.settle()
+            sim.advance(2.0 * cur_states.count("busy") + 0.5)
+            if raised and not (via != "future" and raised[0] is fut._final_exception):
+                ctx.fail(["C17.page", "fetch-raises", "via=%s" % via, F.exc_name(raised[0])],
+                         "fetching page %d via %s raised %r" % (j + 1, via, raised[0]))
+                return
+            fetched += 1
+            ctx.label("page-fetch:via=%s" % via, "page-fetch:mode=%s" % case["mode"])
+            if cur_states != prev:
+                ctx.label("page-fetch:pool-states-changed")
+            if by_host and cur_states[0] in SKIP_REASON:
+                ctx.label("page-fetch:target-unusable")
+        frames_m, errors_m, decs, outcome_m = model(eff_states, kinds)
+        res = []
+
+        def get():
+            try:
+                r = fut.result()
+                rs_box[0] = r
+                res.append(("result", [tuple(x) for x in (r.current_rows if pages else r)]))
+            except Exception as e:  # noqa
+                res.append(("error", e))
+        if not F.done(fut):
+            ctx.fail(["C17.outcome", "incomplete"] + pfeat,
+                     "the future has no outcome; frames went to plan positions %r" % (got,))
+            return
+        sim.call(get)
+        kind, val = res[0]
+        # a pool whose connection failed under an earlier page is by now shut down or removed: either reason
+        reasons = dict((p, (r,) if not (j > 0 and r == "ConnectionShutdown") else (r, "ConnectionException"))
+                       for p, r in errors_m.items())
+
+        feat = "first-deviation=%s" % next(((cur_states[p] if p < len(eff_states) else "non-target") if isinstance(p, int) else "off-plan" for p, q in
+                                            itertools.zip_longest(got, frames_m) if p != q and p is not None), "missing-frame")
+        if got != frames_m:
+            ctx.fail(["C17.order", "mode=%s" % case["mode"], feat] + pfeat,
+                     "page %d: frames went to plan positions %r, expected %r (states %r, plan %r)" % (
+                         j + 1, got, frames_m, eff_states, plan))
+        elif outcome_m[0] == "result":
+            if kind != "result" or val != [(1, "x")]:
+                ctx.fail(["C17.outcome", "expected=rows", "got=%s" % (kind if kind == "result" else F.exc_name(val))] + pfeat,
+                         "expected the rows of position %d, got %r (states %r)" % (frames_m[-1], val, eff_states))
+        elif outcome_m[0] == "error":
+            if kind != "error" or F.exc_name(val) != outcome_m[1]:
+                ctx.fail(["C17.outcome", "expected=%s" % outcome_m[1], "got=%s" % (kind if kind == "result" else F.exc_name(val))] + pfeat,
+                         "expected %s, got %r (states %r)" % (outcome_m[1], val, eff_states))
         else:
-            errs = {}
-            for h, e in val.errors.items():
-                a = getattr(getattr(h, "endpoint", None), "address", h)
-                errs[pos_of.get(a, "off-plan:%s" % (a,))] = F.exc_name(e)
-            if set(errs) != set(errors_m):
-                missing = sorted(set(errors_m) - set(errs), key=str)
-                extra = sorted(set(errs) - set(errors_m), key=str)
-                ctx.fail(["C17.exhaustion", "errors-keys"] +
-                         (["missing=%s" % eff_states[missing[0]]] if missing else ["extra"]),
-                         "NoHostAvailable.errors has entries for positions %r, expected %r (states %r)" % (
-                             sorted(errs, key=str), sorted(errors_m), eff_states))
+            if kind != "error" or not isinstance(val, NoHostAvailable):
+                ctx.fail(["C17.exhaustion", "not-reported", "got=%s" % (kind if kind == "result" else F.exc_name(val))] + pfeat,
+                         "the plan is exhausted (states %r) but the outcome is %r" % (eff_states, val))
             else:
-                for p in sorted(errors_m):
-                    if errs[p] != errors_m[p]:
-                        ctx.fail(["C17.exhaustion", "reason", "state=%s" % eff_states[p], "got=%s" % errs[p]],
-                                 "NoHostAvailable.errors[position %d] is %s, expected %s (states %r)" % (
-                                     p, errs[p], errors_m[p], eff_states))
-                        break
-    if outcome_m[0] != "nha" and kind == "error" and isinstance(val, NoHostAvailable) and got == frames_m:
-        pass  # already reported through C17.outcome
-    ctx.label("mode=%s" % case["mode"], "len=%d" % len(plan), "outcome=%s" % outcome_m[0])
-    for s in set(eff_states):
-        ctx.label("state:%s" % s)
-    visited = len(errors_m) + len(set(frames_m) - set(errors_m))
-    ctx.nontrivial(visited >= 2 and any(s != "ok" for s in eff_states[:visited]))
+                errs = {}
+                for h, e in val.errors.items():
+                    a = getattr(getattr(h, "endpoint", None), "address", h)
+                    errs[pos_of.get(a, "off-plan:%s" % (a,))] = F.exc_name(e)
+                if set(errs) != set(errors_m):
+                    missing = sorted(set(errors_m) - set(errs), key=str)
+                    extra = sorted(set(errs) - set(errors_m), key=str)
+                    ctx.fail(["C17.exhaustion", "errors-keys"] +
+                             (["missing=%s" % eff_states[missing[0]]] if missing else ["extra"]) + pfeat,
+                             "NoHostAvailable.errors has entries for positions %r, expected %r (states %r)" % (
+                                 sorted(errs, key=str), sorted(errors_m), eff_states))
+                else:
+                    for p in sorted(errors_m):
+                        if errs[p] not in reasons[p]:
+                            ctx.fail(["C17.exhaustion", "reason", "state=%s" % eff_states[p], "got=%s" % errs[p]] + pfeat,
+                                     "NoHostAvailable.errors[position %d] is %s, expected %s (states %r)" % (
+                                         p, errs[p], errors_m[p], eff_states))
+                            break
+        visited = len(errors_m) + len(set(frames_m) - set(errors_m))
+        if visited >= 2 and any(s != "ok" for s in eff_states[:visited]):
+            nontrivial = True
+        if j > 0 and by_host and len(plan) >= 2:
+            nontrivial = True     # the policy's plan offers other hosts first; only the target may be tried
+        if j == 0:
+            ctx.label("mode=%s" % case["mode"], "len=%d" % len(plan), "outcome=%s" % outcome_m[0])
+        else:
+            ctx.label("page-fetch:outcome=%s" % outcome_m[0])
+        for s in set(eff_states):
+            ctx.label("state:%s" % s)
+        if ctx._failures or outcome_m[0] != "result" or kind != "result":
+            break
+        if j + 1 < len(all_states):
+            nxt = all_states[j + 1]
+            decisions.extend(model(nxt[:1] if by_host else nxt, kinds)[2])
+    if pages:
+        ctx.label("paged", "pages-fetched=%d" % fetched)
+    ctx.nontrivial(nontrivial)
 
 
 # --------------------------------------------------------------------------- speculative executions in flight
@@ -424,20 +531,42 @@ def _cases(chunk):
             for target in (0, 1):
                 yield {"nodes": 2, "plan": [target, 1 - target], "states": [s, "ok"], "mode": "host", "kind_shift": 1,
                        "tape": [], "gran": "blocking", "warm": (STATES.index(s) + target) % 3}
+        # a targeted request that is paged: every state of the target at the second page fetch, every way of fetching
+        for s1 in ("ok", "err_retry"):
+            for s2 in STATES:
+                for vi, via in enumerate(VIAS):
+                    target = (STATES.index(s2) + vi) % 2
+                    yield {"nodes": 2, "plan": [target, 1 - target], "states": [s1, "ok"], "mode": "host", "kind_shift": 1,
+                           "pages": [{"states": [s2, "same"], "via": via}],
+                           "tape": [], "gran": "blocking", "warm": (STATES.index(s2) + vi) % 3}
 
 
-def s_case(gran):
+def s_case(gran, paged=None):
+    """paged=None: about a third of the cases fetch 1-3 further pages; True: all of them do"""
     def build(draw):
         m = draw(st.integers(1, 4))
         k = draw(st.integers(1, m))
         plan = draw(st.permutations(list(range(m))))[:k]
         weighted = STATES + ["err_next", "busy", "failsend", "missing"]
-        states = [draw(st.sampled_from(weighted)) for _ in range(k)]
-        return {"nodes": m, "plan": list(plan), "states": states,
-                "mode": draw(st.sampled_from(["lbp", "lbp", "lbp", "host"])),
-                "kind_shift": draw(st.integers(0, 3)),
-                "warm": draw(st.sampled_from([0, 1, 1, 2])),
-                "tape": draw(st.lists(st.integers(0, 3), max_size=30 if gran == "locks" else 6)), "gran": gran}
+        mode = draw(st.sampled_from(["lbp", "lbp", "lbp", "host"] if not paged else ["lbp", "host"]))
+        is_paged = draw(st.sampled_from([False, False, True])) if paged is None else paged
+        case = {"nodes": m, "plan": list(plan), "mode": mode}
+        if not is_paged:
+            case["states"] = [draw(st.sampled_from(weighted)) for _ in range(k)]
+        else:
+            # the first page must be answered with rows: hosts before the answering one are skipped or say
+            # "next host", the answering one is healthy (possibly after one same-host retry)
+            succ = 0 if mode == "host" else draw(st.integers(0, k - 1))
+            case["states"] = ([draw(st.sampled_from(["missing", "shutdown", "busy", "failsend", "err_next"])) for _ in range(succ)] +
+                              [draw(st.sampled_from(["ok", "ok", "err_retry"]))] +
+                              [draw(st.sampled_from(weighted)) for _ in range(k - succ - 1)])
+            later = weighted + ["same"] * 6
+            case["pages"] = [{"states": [draw(st.sampled_from(later)) for _ in range(k)], "via": draw(st.sampled_from(VIAS))}
+                             for _ in range(draw(st.sampled_from([1, 1, 2, 3])))]
+        case.update({"kind_shift": draw(st.integers(0, 3)),
+                     "warm": draw(st.sampled_from([0, 1, 1, 2])),
+                     "tape": draw(st.lists(st.integers(0, 3), max_size=30 if gran == "locks" else 6)), "gran": gran})
+        return case
     return st.composite(build)()
 
 
@@ -448,6 +577,8 @@ def parts(tier):
                  quick_shards=1, thorough_shards=8),
         hyp_part("locks", lambda: s_case("locks"), interpret, tier, quick=40, thorough=500,
                  quick_shards=1, thorough_shards=4),
+        hyp_part("paged", lambda: s_case("blocking", paged=True), interpret, tier, quick=80, thorough=1500,
+                 quick_shards=1, thorough_shards=6),
         hyp_part("speculative", lambda: s_spec_case("blocking"), interpret_spec, tier, quick=150, thorough=1500,
                  quick_shards=1, thorough_shards=6),
         hyp_part("speculative-locks", lambda: s_spec_case("locks"), interpret_spec, tier, quick=30, thorough=400,
